@@ -48,7 +48,7 @@ def plan(tier):
     return 200 if tier == "quick" else 2000
 
 
-VARIANTS = ["clean"] * 6 + ["connector"] * 3 + ["end_start", "end_start_open", "sym_unit", "zero_width", "broad_gauss", "ambiguous_terminal", "same_atom_unit",
+VARIANTS = ["clean"] * 6 + ["connector"] * 3 + ["same_unit"] * 2 + ["end_start", "end_start_open", "sym_unit", "zero_width", "broad_gauss", "ambiguous_terminal", "same_atom_unit",
                           "symmetric_product"]
 
 
@@ -60,7 +60,13 @@ def spec_from_seed(run_seed, tier):
     nb = rnd.choice([1, 1, 2, 2, 3]) if variant in ("clean", "zero_width", "broad_gauss", "ambiguous_terminal") else 1
     if variant == "connector":
         nb = rnd.choice([2, 2, 3])
+    if variant == "same_unit":
+        nb = 2
     units = rnd.sample(UNITS_ASYM, nb)
+    if variant == "same_unit":
+        # two adjacent blocks of the SAME unit: a chain of n units is produced by every split n = k + (n - k), its probability is
+        # the sum over the splits
+        units = [units[0], units[0]]
     if variant == "sym_unit":
         units = [rnd.choice(["{0}CC{1}", "{0}COC{1}", "{0}CC(C)({1})C(=O)OC"])]
     if variant == "same_atom_unit":
@@ -292,6 +298,42 @@ def execute(spec):
         except Failed as f:
             stats["aborted_by_failed_generation"] = 1
             return _result(spec, viols, stats, digests, 0)
+        # two adjacent blocks of one unit: the chain with n units in total is every split (k, n - k); its probability is the sum
+        # of the products over all splits.  Compared for totals whose every split lies inside the enumerated (fully known) lengths.
+        if "variant:same_unit" in spec.get("tags", []) and nb == 2:
+            known = [{k: p for k, p in P[b].items() if p is not None} for b in range(2)]
+            lo = [min(P[b]) for b in range(2)]
+            for n_tot in range(lo[0] + lo[1], lo[0] + lo[1] + 8):
+                splits = [(k, n_tot - k) for k in range(lo[0], n_tot - lo[1] + 1)]
+                # lengths below the 1e-9 quantile's length have probability < 1e-9: ignored; every other split must be fully known
+                if not splits or any(k not in known[0] or m not in known[1] for k, m in splits):
+                    continue
+                p_gen = sum(known[0][k] * known[1][m] for k, m in splits)
+                if p_gen < 1e-4:
+                    continue
+                k0, m0 = max(splits, key=lambda km: known[0][km[0]] * known[1][km[1]])
+                if rep_u[0].get(k0) is None or rep_u[1].get(m0) is None:
+                    continue
+                try:
+                    ns, smi, mol, mg = run_with([rep_u[0][k0], rep_u[1][m0]])
+                except Failed:
+                    continue
+                if ns != [k0, m0]:
+                    continue
+                try:
+                    p_lib = float(g.mol_prob.get_ensemble_prob(smi, mol)[0])
+                except Exception as exc:
+                    viol("ensemble_prob_raised", f"get_ensemble_prob({smi!r}) raised {exc!r}", ["exc=" + type(exc).__name__])
+                    break
+                stats["queries"] += 1
+                stats["lengths_compared"] += 1
+                stats["split_sums_compared"] = stats.get("split_sums_compared", 0) + 1
+                if abs(p_lib - p_gen) > 2e-6 + 1e-5 * p_gen:
+                    viol("probability_differs_from_generator",
+                         f"{n_tot} units of one repeat unit over two adjacent blocks: get_ensemble_prob({smi!r}) = {p_lib!r}, generation produces it with "
+                         f"probability {p_gen!r} (sum over the splits {splits})")
+                    break
+            return _result(spec, viols, stats, digests, stats["lengths_compared"])
         # queries ------------------------------------------------------------------------------------
         cand = []
         for b in range(nb):
